@@ -141,6 +141,7 @@ func (s *Set[E]) AddB(value E) bool {
 	for {
 		lFound := s.findNodeAdd(value, &preds, &succs)
 		if lFound != -1 { // indicating the value is already in the skip-list
+			verifYield(6)
 			nodeFound := succs[lFound]
 			if !nodeFound.flags.Get(marked) {
 				for !nodeFound.flags.Get(fullyLinked) {
@@ -176,12 +177,14 @@ func (s *Set[E]) AddB(value E) bool {
 			unlockInt64(preds, highestLocked)
 			continue
 		}
+		verifYield(2)
 
 		nn := newNode[E](value, level)
 		for layer := 0; layer < level; layer++ {
 			nn.storeNext(layer, succs[layer])
 			preds[layer].atomicStoreNext(layer, nn)
 		}
+		verifYield(3)
 		nn.flags.SetTrue(fullyLinked)
 		unlockInt64(preds, highestLocked)
 		atomic.AddInt64(&s.length, 1)
@@ -204,6 +207,7 @@ func (s *Set[E]) randomLevel() int {
 		if int64(level) <= hl {
 			break
 		}
+		verifYield(4)
 		if atomic.CompareAndSwapInt64(&s.highestLevel, hl, int64(level)) {
 			break
 		}
@@ -223,6 +227,7 @@ func (s *Set[E]) ContainsB(value E) bool {
 
 		// Check if the value already in the skip list.
 		if nex != nil && nex.equal(value, s.comparator) {
+			verifYield(5)
 			return nex.flags.MGet(fullyLinked|marked, fullyLinked)
 		}
 	}
@@ -262,6 +267,7 @@ func (s *Set[E]) RemoveB(value E) bool {
 				}
 				nodeToRemove.flags.SetTrue(marked)
 				isMarked = true
+				verifYield(1)
 			}
 			// Accomplish the physical deletion.
 			var (
